@@ -137,7 +137,7 @@ example : (ev c16Env 5 .evaluate (.cached 2 (.value 1 (.int 7)) 0) (.dict []) {}
   `"{DEBUG}"` is on exactly when `DEBUG` resolves to a truthy value (a direct dictionary lookup would see the non-empty
   string and switch caching off although the switch is off). -/
 
-private theorem resolve_whole_reference' (n : Nat) (k : String) (o v : V) (r : Except RErr V) (rd : List String)
+theorem resolve_reference_step (n : Nat) (k : String) (o v : V) (r : Except RErr V) (rd : List String)
     (hf : findKeys ("{" ++ k ++ "}") = [k]) (hg : getDotted k o = .found v) (hr : resolveR n v o = some (r, rd)) :
     resolveR (n + 1) (.str ("{" ++ k ++ "}")) o = some (r, k :: rd) := by
   simp [resolveR, hf, hg, hr]
@@ -150,7 +150,7 @@ theorem option_reference_resolves (env : Env) (hsub : env.subst = Option.none) (
     (h1 : getDotted key o = .found (.str ("{" ++ k ++ "}")))
     (h2 : getDotted k o = .found d) (hd : resolveR (n + 1) d o = some (.ok d, [])) (s : St) :
     ∃ s', ev env (n + 3) .evaluate (.option id key dflt Option.none) o s = some (.ok d, s') := by
-  have hr := resolve_whole_reference' (n + 1) k o d (.ok d) [] hf h2 hd
+  have hr := resolve_reference_step (n + 1) k o d (.ok d) [] hf h2 hd
   simp [ev, hsub, nodeOp, optionOp, readKey, bind_run, emit_run, pure_run, h1, wrapEvaluate, handle, resolveM, hr, emitAll]
 
 theorem cache_switch_follows_reference (env : Env) (hoff : env.cacheCtxOff = false) (hsub : env.subst = Option.none)
@@ -174,7 +174,7 @@ theorem cache_switch_second_spelling_follows_reference (env : Env) (hoff : env.c
     (h2 : getDotted k o = .found d) (hd : resolveR (n + 1) d o = some (.ok d, [])) (s : St) :
     ∃ s', cacheDisabled env (ev env (n + 4)) o s = some (.ok d.truthy, s') := by
   simp only [cacheDisabled, hoff, Bool.false_eq_true, if_false, cacheDisabledOption, optFalse]
-  have hr := resolve_whole_reference' (n + 1) k o d (.ok d) [] hf h2 hd
+  have hr := resolve_reference_step (n + 1) k o d (.ok d) [] hf h2 hd
   simp [ev, hsub, nodeOp, optionOp, readKey, bind_run, emit_run, pure_run, h0, h1, wrapEvaluate, handle, resolveM, hr, emitAll]
 
 theorem effects_switch_follows_reference (env : Env) (hsub : env.subst = Option.none)
